@@ -547,6 +547,15 @@ class C16(Check):
                 c.append({"op": "ip6_parse_cidr", "t": u, "allow_host": False})
                 c.append({"op": "ip6_innet_text", "a": "fe80" + "00" * 13 + "01", "net": u})
         for u in uni_variants("24") + uni_variants("255.255.0.0"): c.append({"op": "ip4_getnet", "a": self.r4(0xc0a80a5a), "arg": u})
+        # --- every accepted argument type of every constructor (value semantics, hashing, type of raw)
+        for raw in ("00000000", "7f000001", "ff0000fe", "80000000", "c0a80a5a"): c.append({"op": "ctor", "k": "ip4", "raw": raw})
+        for raw in ("00" * 16, "20010db8000000000000000000000001", "00" * 10 + "ffff01020304", "ff" * 16, "fe80" + "00" * 13 + "01"): c.append({"op": "ctor", "k": "ip6", "raw": raw})
+        for raw in ("000000000000", "0123456789ab", "ffffffffffff", "0180c200000e", "313a323a333a"): c.append({"op": "ctor", "k": "eth", "raw": raw})
+        # --- EthAddr loose form: all 64 layouts of one- or two-digit groups (total lengths 11..17), str and bytes form
+        for layout in range(64):
+            for vals in ([0x1, 0x2, 0x3, 0x4, 0x5, 0x6], [0xab, 0xc, 0xd, 0xef, 0xa, 0xb], [0xf, 0xf0, 0x0, 0x9, 0x10, 0xff]):
+                t = ":".join(("%02x" if layout >> i & 1 else "%x") % x for i, x in enumerate(vals))
+                c.append({"op": "eth_text", "t": t}); c.append({"op": "eth_text", "t": t.upper(), "bytes": True})
         # --- truncations: every proper prefix and suffix of valid texts (must be rejected, or be the valid text they happen to be)
         for t in ["10.20.30.40", "255.255.255.255"]:
             for i in range(len(t) + 1):
@@ -714,6 +723,14 @@ class C16(Check):
             kind = (rng.choice(["list", "tuple", "bytearray"]) if len(vals) != 6 else rng.choice(["list", "tuple", "bytearray", "memoryview", "array", "bytes"])) \
                 if all(0 <= v < 256 for v in vals) else rng.choice(["list", "tuple"])
             yield {"op": "eth_seq", "kind": kind, "vals": vals}
+        for _ in range(R(120, 2500)):
+            k = rng.choice(["ip4", "ip6", "eth"]); nb = {"ip4": 4, "ip6": 16, "eth": 6}[k]
+            yield {"op": "ctor", "k": k, "raw": (self.rand6(rng) if k == "ip6" and rng.random() < 0.5 else rng.getrandbits(8 * nb).to_bytes(nb, "big")).hex()}
+        for _ in range(R(200, 4000)):                   # loose Ethernet forms, every layout, random digits and case
+            layout = rng.randrange(64); up = rng.random() < 0.3
+            t = ":".join((("%02X" if up else "%02x") if layout >> i & 1 else ("%X" if up else "%x")) % rng.choice([rng.randrange(16), rng.randrange(256) if layout >> i & 1 else rng.randrange(16)])
+                         for i in range(6))
+            yield {"op": "eth_text", "t": t, "bytes": rng.random() < 0.3}
         # random method sequences on two or three objects of one class with nearly equal values
         for _ in range(R(300, 6000)):
             k = rng.choice(["ip4", "ip4", "ip6", "ip6", "eth"])
@@ -896,6 +913,67 @@ class C16(Check):
                     ok["mixed-eq:hash-differs"] = "%s == %s but the hashes differ" % (nm, type(o).__name__)
         return ok
 
+    # ---- every accepted argument TYPE of every constructor: the object built must be an immutable value, independent of the source
+    #      object afterwards, hashable consistently with an equal address built from text, with `bytes` raw forms (HARDENING 2 + 4)
+    def _ctor(self, case):
+        import array
+        A = self.A
+        k, raw = case["k"], bytes.fromhex(case["raw"])
+        if k == "ip4":
+            text = ".".join(map(str, raw)); ref = A.IPAddr(text)
+            srcs = [("str", lambda: (text, None)), ("bytes", lambda: (raw, None)), ("bytearray", lambda: (bytearray(raw), "self")),
+                    ("bytes-text", lambda: (text.encode(), None)), ("bytearray-text", lambda: (bytearray(text.encode()), "self")),
+                    ("int", lambda: (rt(int.from_bytes(raw, "big")), None)), ("copy", lambda: (A.IPAddr(raw), None)),
+                    ("memoryview", lambda: (memoryview(bytearray(raw)), "obj")), ("list", lambda: (list(raw), "self")), ("tuple", lambda: (tuple(raw), None))]
+            builders = [("", lambda a: A.IPAddr(a))]
+            srcs.append(("int-n", lambda: (rt(int.from_bytes(raw, "little")), None)))
+        elif k == "ip6":
+            text = rfc5952(raw); ref = A.IPAddr6(text)
+            srcs = [("str", lambda: (text, None)), ("bytes", lambda: (raw, None)), ("bytearray", lambda: (bytearray(raw), "self")), ("copy", lambda: (A.IPAddr6(raw, raw=True), None)),
+                    ("memoryview", lambda: (memoryview(bytearray(raw)), "obj")), ("list", lambda: (list(raw), "self")), ("int", lambda: (rt(int.from_bytes(raw, "big")), None))]
+            builders = [("", lambda a: A.IPAddr6(a) if isinstance(a, (str, A.IPAddr6, bytearray)) else A.IPAddr6(a, raw=True)),
+                        ("raw=True", lambda a: A.IPAddr6(a, raw=True)), ("raw=", lambda a: A.IPAddr6(raw=a)), ("from_raw", lambda a: A.IPAddr6.from_raw(a)),
+                        ("from_num", lambda a: A.IPAddr6.from_num(a))]
+        else:
+            text = ":".join("%02x" % b for b in raw); ref = A.EthAddr(text)
+            srcs = [("str", lambda: (text, None)), ("str-bare", lambda: (raw.hex(), None)), ("bytes", lambda: (raw, None)), ("bytearray", lambda: (bytearray(raw), "self")),
+                    ("memoryview", lambda: (memoryview(bytearray(raw)), "obj")), ("array", lambda: (array.array("B", raw), "self")), ("list", lambda: (list(raw), "self")),
+                    ("tuple", lambda: (tuple(raw), None)), ("copy", lambda: (A.EthAddr(raw), None)), ("bytes-text", lambda: (text.encode(), None))]
+            builders = [("", lambda a: A.EthAddr(a))]
+        problems = []
+        def obs(x):
+            r = x.raw
+            o = {"raw": bytes(r).hex(), "rawtype": type(r).__name__, "str": str(x)}
+            if hasattr(x, "toRaw"): o["toRawtype"] = type(x.toRaw()).__name__
+            try: o["hash"] = hash(x) == hash(ref)
+            except TypeError: o["hash"] = "unhashable"
+            try: o["set"] = (x in {ref}) and ({ref: 1}.get(x) == 1) and len({x, ref}) == 1
+            except TypeError: o["set"] = "unhashable"
+            o["eq"] = bool(x == ref) and bool(ref == x) and not (x != ref) and not (x < ref) and not (ref < x)
+            return o
+        want = {"raw": raw.hex(), "rawtype": "bytes", "str": text, "toRawtype": "bytes", "hash": True, "set": True, "eq": True}
+        for sname, mk in srcs:
+            for bname, build in builders:
+                if (bname in ("raw=True", "raw=", "from_raw") and sname in ("str", "copy", "int")) or (bname == "from_num") != (sname == "int" and k == "ip6"): continue
+                if bname == "raw=" and sname not in ("bytes", "bytearray"): continue     # `raw=` is documented as a flag or the bytes themselves
+                if k == "ip4" and sname == "int-n": build = lambda a: A.IPAddr(a, networkOrder=True)
+                tag = "%s:%s%s" % (k, sname, ("/" + bname) if bname else "")
+                src, mut = mk()
+                try:
+                    x = build(src)
+                except Exception:
+                    continue                           # this argument type is not accepted in this form: nothing to hold
+                o = obs(x)
+                bad = [f for f in want if f in o and o[f] != want[f]]
+                if bad: problems.append("%s:%s" % (tag, bad[0])); continue
+                if mut:                                # the source object changes afterwards: the address must not
+                    tgt = src.obj if mut == "obj" else src
+                    tgt[0] = (tgt[0] + 1) % 256; tgt[-1] = tgt[-1] ^ 0x80
+                    o2 = obs(x)
+                    bad = [f for f in want if f in o2 and o2[f] != want[f]]
+                    if bad: problems.append("%s:follows-its-source:%s" % (tag, bad[0]))
+        return problems
+
     # ---- sequences of method calls on the SAME objects (hidden per-instance / per-class state, HARDENING items 1-2)
     def _mk_obj(self, o):
         A = self.A
@@ -1068,6 +1146,8 @@ class C16(Check):
                 return {"view": {}, "extra": self._misc(case)}
             if op == "objs":
                 return {"view": {"steps": self._run_objs(case)}}
+            if op == "ctor":
+                return {"view": {}, "extra": {"problems": self._ctor(case)}}
             if op == "calls":
                 # one Python process, one call after the other: no result may depend on what was called before
                 subs = [self.impl(c) for c in case["calls"]]
@@ -1079,7 +1159,7 @@ class C16(Check):
     # ------------------------------------------------------------------------- model side
     TEXT_KEYS = ("t", "net", "arg")
     def model_request(self, case):
-        if case["op"] == "misc": return None
+        if case["op"] in ("misc", "ctor"): return None
         if case["op"] == "calls":
             subs = [self.model_request(c) for c in case["calls"]]
             return None if any(x is None for x in subs) else {"calls": subs}
@@ -1279,7 +1359,7 @@ class C16(Check):
                 return None if rejected else "cidr: host bits set but accepted: %r" % t
             wa, wb = want
             if rejected:
-                if six and any(unsupported_valid6(p) for p in t.split("/")): return None
+                if six and not self.variant["ip6"] and any(unsupported_valid6(p) for p in t.split("/")): return None
                 return "cidr: valid %r rejected (%s)" % (t, v["exc"])
             if op.endswith("parse_cidr"):
                 if (v["addr"], v["bits"]) != (wa.hex(), wb): return "cidr: %r parsed as %s/%s" % (t, v["addr"], v["bits"])
@@ -1305,7 +1385,7 @@ class C16(Check):
             if want is None:
                 return None if rejected else "ip6-text:accepts:" + ip6_class(case["t"])
             if rejected:
-                if unsupported_valid6(case["t"]):                   # a valid form the constructor does not support: not mis-parsed
+                if not self.variant["ip6"] and unsupported_valid6(case["t"]):   # (unrepaired code only) a valid form the constructor does not support: not mis-parsed
                     self.stats["valid_ip6_text_rejected"] = self.stats.get("valid_ip6_text_rejected", 0) + 1
                     return None
                 return "ip6: valid text %r rejected (%s)" % (case["t"], v["exc"])
@@ -1334,7 +1414,7 @@ class C16(Check):
             if want is None:
                 return None if rejected else "eth-text:accepts:" + eth_class(case["t"])
             if rejected:
-                if len(case["t"]) == 12 and ":" in case["t"]:       # loose form of length 12: theorem eth_loose12_rejected
+                if not self.variant["eth"] and len(case["t"]) == 12 and ":" in case["t"]:   # (unrepaired code only) theorem eth_loose12_rejected
                     self.stats["valid_eth_text_rejected"] = self.stats.get("valid_eth_text_rejected", 0) + 1
                     return None
                 return "eth: valid text %r rejected (%s)" % (case["t"], v["exc"])
@@ -1365,6 +1445,9 @@ class C16(Check):
         if op == "misc":
             bad = sorted(k for k, val in ex.items() if val is not True)
             return ("misc:" + bad[0]) if bad else None
+        if op == "ctor":
+            if rejected: return "ctor: harness-level exception %s" % v["exc"]
+            return ("ctor:" + ex["problems"][0]) if ex["problems"] else None
         if op == "objs":
             if rejected: return "objs: harness-level exception %s" % v["exc"]
             for j, (st, got) in enumerate(zip(case["steps"], v["steps"])):
@@ -1448,6 +1531,7 @@ class C16(Check):
 
     def finding_key(self, case, obs, failure):
         if re.match(r"(ip4|ip6|eth)-(text|cidr|mask|seq):", failure) or failure.startswith("immutable:"): return failure
+        if case["op"] == "ctor": return failure
         if case["op"] == "calls" and failure.startswith("call "):
             return "calls:" + failure.split("): ", 1)[1].split(":")[0][:40]
         if failure.startswith("misc:"): return failure[5:] if failure.startswith(("misc:ip6-ctor:", "misc:mixed-eq:")) else failure
